@@ -10,15 +10,16 @@ import (
 )
 
 func isMathCall(v ssa.Value, name string) (*ssa.Call, bool) {
-	call, ok := unconv(v).(*ssa.Call)
-	if !ok {
-		return nil, false
+	for d := 0; d < 3 && v != nil; d++ {
+		call, ok := unconv(v).(*ssa.Call)
+		if ok {
+			if sc := call.Call.StaticCallee(); sc != nil && sc.Pkg != nil && sc.Pkg.Pkg.Path() == "math" && sc.Name() == name {
+				return call, true
+			}
+		}
+		v = through(unconv(v)) // a single-return helper wrapping the expression, or a helper's parameter
 	}
-	sc := call.Call.StaticCallee()
-	if sc == nil || sc.Pkg == nil || sc.Pkg.Pkg.Path() != "math" || sc.Name() != name {
-		return nil, false
-	}
-	return call, true
+	return nil, false
 }
 
 func constFloat(p *Prog, name string) (float64, bool) {
